@@ -141,13 +141,14 @@ def run_job(job):
             # a plain sequence of one number per coefficient is only meaningful for list-backed multivectors
             # (an ndarray-backed one hands it to numpy broadcasting); arrays of the addressed shape and
             # multivectors are meaningful for both
-            mode = rng.choice(['scalar_each', 'array_each', 'mv', 'mv_perm'] if cont == 'list' else ['array_each', 'mv', 'mv_perm'])
+            mode = rng.choice(['scalar_each', 'array_each', 'mv', 'mv_perm', 'mv_scalar'] if cont == 'list' else ['array_each', 'mv', 'mv_perm', 'mv_scalar'])
             if mode == 'mv_perm' and len(x.keys()) < 2:
                 mode = 'mv'
-            if mode == 'scalar_each':
+            if mode in ('scalar_each', 'mv_scalar'):
                 vals = [rng.randint(10, 99) for _ in x.keys()]
                 assigned = [[v] * len(pos) for v in vals]
-                rhs = vals
+                # mv_scalar: a MULTIVECTOR with plain-number coefficients: coefficient k goes to the addressed entries of coefficient k
+                rhs = vals if mode == 'scalar_each' else MultiVector.fromkeysvalues(alg, x.keys(), list(vals))
             else:
                 arrs = [np.array([rng.randint(10, 99) for _ in range(tgt.size)], dtype=np.int64).reshape(tgt.shape) for _ in x.keys()]
                 assigned = [[int(v) for v in a.reshape(-1)] for a in arrs]
